@@ -921,9 +921,9 @@ def obligations(tier: str) -> list[dict]:
                efix=efix, **base)
 
     def esc(name: str, timeout: int, ops: list, sym: str, edges: list, fixed: int = 0, split: list = [],
-            nsym: int = 0, codes: list = [2], witness: bool = False, **cfg: Any) -> None:
+            nsym: int = 0, codes: list = [2], witness: bool = True, pin: int = 0, **cfg: Any) -> None:
         """Escape obligations: fixed operations `ops` (+ nsym symbolic ones), symbolic swap choice in phase
-        `sym`; the first `fixed` choices are pinned to candidate 0, the next len(split) ones enumerate shards
+        `sym`; the first `fixed` choices are pinned to candidate `pin`, the next len(split) ones enumerate shards
         (split[i] = number of candidates of that decision)."""
         c = dict(pl='trivial', layout=('layout' in sym), sym=sym)
         c.update(cfg)
@@ -937,13 +937,13 @@ def obligations(tier: str) -> list[dict]:
         for k in split:
             combos = [x + [v] for x in combos for v in range(k)]
         for combo in combos:
-            cfix = {str(i): 0 for i in range(fixed)}
+            cfix = {str(i): pin for i in range(fixed)}
             cfix.update({str(fixed + i): v for i, v in enumerate(combo)})
             ob('escape/%s%s' % (name, '/c' + ''.join(map(str, combo)) if combo else ''), 'escape', timeout,
                cfix=cfix, **sh)
         if witness:
             obs.append({'name': 'escape-witness/' + name, 'func': 'escape_witness', 'kind': 'direct', 'timeout': 60,
-                        'shard': dict(sequences=[[0] * NCHOICE, [1] * NCHOICE], need_escape=0, **sh)})
+                        'shard': dict(sequences=[[0] * NCHOICE, [1] * NCHOICE, [2] * NCHOICE], **sh)})
 
     ALL = [1, 2, 3, 4, 5, 6, 7]
     if tier == 'quick':
@@ -959,10 +959,9 @@ def obligations(tier: str) -> list[dict]:
         fam(4, 4, 1, [2, 3, 5, 7], Q, T, split=1)
         fam(4, 4, 2, [2], Q, T, split=1, max_edges=3)
         fam(4, 4, 3, [2], Q, T, edges=LINE4)
-        esc('routing-fwd/line4/T(0,3)', T, [[2, [0, 3]]], 'routing-fwd', LINE4, fixed=6, witness=True)
-        esc('layout-bwd/line4/T(1,2)T(0,3)', T, [[2, [1, 2]], [2, [0, 3]]], 'layout-bwd', LINE4, fixed=6,
-            witness=True)
-        esc('routing-fwd/line4/T(0,1,3)', T, [[3, [0, 1, 3]]], 'routing-fwd', LINE4, fixed=13, witness=True)
+        esc('routing-fwd/line4/T(0,3)', T, [[2, [0, 3]]], 'routing-fwd', LINE4, fixed=6)
+        esc('layout-bwd/line4/T(1,2)T(0,3)', T, [[2, [1, 2]], [2, [0, 3]]], 'layout-bwd', LINE4, fixed=6)
+        esc('routing-fwd/line4/T(0,1,3)', T, [[3, [0, 1, 3]]], 'routing-fwd', LINE4, fixed=13)
         PQ = 'pam-quick'
         fam(3, 3, 2, [1, 8, 9], PQ, T)
         fam(3, 4, 2, [8, 9], PQ, T)
@@ -970,7 +969,7 @@ def obligations(tier: str) -> list[dict]:
         fam(4, 4, 2, [8], PQ, T, max_edges=3)
         fam(4, 4, 3, [8], PQ, T, edges=LINE4)
         fam(3, 4, 2, [9, 4, 7], PQ, T)                     # barriers
-        esc('routing-fwd/line4/T(0,3)', T, [[8, [0, 3]]], 'routing-fwd', LINE4, fixed=6, witness=True, algo='pam',
+        esc('routing-fwd/line4/T(0,3)', T, [[8, [0, 3]]], 'routing-fwd', LINE4, fixed=6, algo='pam',
             perms='both')
     else:
         F = 'full'
@@ -992,17 +991,16 @@ def obligations(tier: str) -> list[dict]:
         fam(4, 5, 3, [2], F, T, edges=LINE5)
         for g in ([0, 3], [0, 2], [1, 3], [3, 0], [2, 0], [3, 1]):
             nm = 'T(%d,%d)' % tuple(g)
-            esc('routing-fwd/line4/' + nm, T, [[2, g]], 'routing-fwd', LINE4, split=[2, 3])
+            esc('routing-fwd/line4/' + nm, T, [[2, g]], 'routing-fwd', LINE4)
         for g in ([0, 3], [2, 0], [3, 1]):
             nm = 'T(%d,%d)' % tuple(g)
-            esc('layout-fwd/line4/' + nm, T, [[2, g]], 'layout-fwd', LINE4, split=[2, 3])
-        esc('layout-bwd/line4/T(1,2)T(0,3)', T, [[2, [1, 2]], [2, [0, 3]]], 'layout-bwd', LINE4, split=[2, 3])
-        esc('layout-bwd/line4/T(0,1)T(1,3)', T, [[2, [0, 1]], [2, [1, 3]]], 'layout-bwd', LINE4, split=[2, 3])
+            esc('layout-fwd/line4/' + nm, T, [[2, g]], 'layout-fwd', LINE4)
+        esc('layout-bwd/line4/T(1,2)T(0,3)', T, [[2, [1, 2]], [2, [0, 3]]], 'layout-bwd', LINE4)
+        esc('layout-bwd/line4/T(0,1)T(1,3)', T, [[2, [0, 1]], [2, [1, 3]]], 'layout-bwd', LINE4)
         esc('layout-bwd/line4/T(0,3)T(1,2)/tp2', T, [[2, [0, 3]], [2, [1, 2]]], 'layout-bwd', LINE4,
-            split=[2, 3], tp=2)
-        esc('routing-fwd/line4/T(0,1,3)', T, [[3, [0, 1, 3]]], 'routing-fwd', LINE4, fixed=9, split=[3],
-            witness=True)
-        esc('routing-fwd/line4/T(3,0,2)', T, [[3, [3, 0, 2]]], 'routing-fwd', LINE4, fixed=9, split=[3])
+            tp=2)
+        esc('routing-fwd/line4/T(0,1,3)', T, [[3, [0, 1, 3]]], 'routing-fwd', LINE4, fixed=9, split=[3])
+        esc('routing-fwd/line4/T(3,0,2)', T, [[3, [3, 0, 2]]], 'routing-fwd', LINE4, fixed=9, split=[3], pin=2)
         esc('layout-fwd/line4/T(0,1,3)', T, [[3, [0, 1, 3]]], 'layout-fwd', LINE4, fixed=11)
         esc('routing-fwd/line4/T(0,3)+T(sym)', T, [[2, [0, 3]]], 'routing-fwd', LINE4, fixed=12, nsym=1)
         PF = 'pam-full'
@@ -1014,9 +1012,9 @@ def obligations(tier: str) -> list[dict]:
         fam(4, 5, 2, [8], PF, T, split='op0', max_edges=4)
         fam(3, 4, 2, [8, 9, 4, 7], PF, T)                   # barriers
         fam(4, 4, 2, [8, 4], PF, T, edges=LINE4)             # barriers
-        esc('routing-fwd/line4/T(0,3)', T, [[8, [0, 3]]], 'routing-fwd', LINE4, split=[2, 3], algo='pam',
+        esc('routing-fwd/line4/T(0,3)', T, [[8, [0, 3]]], 'routing-fwd', LINE4, algo='pam',
             perms='both')
-        esc('layout-fwd/line4/T(0,3)', T, [[8, [0, 3]]], 'layout-fwd', LINE4, split=[2, 3], algo='pam',
+        esc('layout-fwd/line4/T(0,3)', T, [[8, [0, 3]]], 'layout-fwd', LINE4, algo='pam',
             perms='out')
         esc('routing-fwd/line4/T(0,1,3)', T, [[9, [0, 1, 3]]], 'routing-fwd', LINE4, fixed=11, algo='pam',
             perms='both')
